@@ -454,3 +454,14 @@ def du8_unique_fields(ctx):
 
 
 RULES.append(('DU8', du8_unique_fields))
+
+
+def du9_lexical(ctx):
+    """DU9 every duration word reaches the duration reader as a word (E7b lexical competition model: month stage, regex families in TOKEN_REGEX_PARSER order with first-claim-wins,
+    alias stage; samples generated from the configuration)"""
+    from ..lexrules import run_samples, number_samples, based_samples, money_samples, unit_samples, month_samples, zone_samples, duration_samples, percent_samples, keyword_samples
+    ctx.rule('DU9', 'every duration word reaches the duration reader as a word', floor=15)
+    run_samples(ctx, 'DU9', duration_samples(ctx))
+
+
+RULES.append(('DU9', du9_lexical))
